@@ -349,6 +349,22 @@ impl<'a> Exec<'a> {
             Op::Fail { .. } | Op::Cancel { .. } => {
                 // interpreted by the property modules that use them
             }
+            Op::Probe { key, kind } => {
+                let kb = key_bytes(self.cfg.keylen, *key);
+                run_probe(self.s(), &kb, *kind).await;
+            }
+            Op::Abandon { lazy } => {
+                let _ = wait_quiet(self.s(), false, max_wait()).await;
+                drop(self.sut.take());
+                // the dropped storage's worker task ends when its channel closes
+                tokio::time::sleep(Duration::from_millis(30)).await;
+                self.stats.reopens += 1;
+                self.labels.insert("reopen");
+                self.labels.insert("abandoned_without_close");
+                self.stale_possible = false;
+                self.open(*lazy).await?;
+                self.model.restart(*lazy);
+            }
         }
         Ok(())
     }
@@ -406,9 +422,24 @@ impl<'a> Exec<'a> {
                 }
             }
         }
+        let before: Vec<(PathBuf, Vec<u8>)> = if damage.is_empty() { vec![] } else { sut::list_files(&self.dir).into_iter().filter(|x| x.1).map(|x| (x.2.clone(), std::fs::read(&x.2).unwrap_or_default())).collect() };
         for d in damage {
             if let Some(l) = crate::damage::apply_index_damage(&self.dir, d, self.cfg.keylen) {
                 self.labels.insert(l);
+            }
+        }
+        // Known finding (open): an index file with its original length and an intact header whose later bytes differ (cut and
+        // filled up again: the tail of a half-written file that was never written) passes every start-up check - no checksum
+        // covers the sections of an index that is used from disk. Such a case is not judged from here on.
+        for (p, old) in &before {
+            if let Ok(now) = std::fs::read(p) {
+                let h = crate::blobfmt::INDEX_HEADER_LEN;
+                if now.len() == old.len() && now != *old && now.len() > h && now[..h] == old[..h] {
+                    self.labels.insert("index_same_length_content_altered");
+                    if self.known(INDEX_CONTENT_ALTERED) {
+                        self.desynced = true;
+                    }
+                }
             }
         }
         self.open(lazy).await?;
@@ -465,7 +496,11 @@ impl<'a> Exec<'a> {
             if sut::blob_path(&self.dir, *id).exists() && !self.cfg.ignore_corrupted {
                 return self.fail("crash/damaged-blob-accepted", format!("blob {} does not parse completely but stayed in the work dir", id));
             }
-            if self.model.blobs.contains_key(id) {
+            if self.cfg.ignore_corrupted {
+                // left in the work dir: pearl neither serves nor counts it (corrupted_blobs_count counts saved blobs)
+                self.model.ignore(*id);
+                self.labels.insert("corrupted_blob_ignored");
+            } else if self.model.blobs.contains_key(id) {
                 self.model.quarantine(*id);
             } else {
                 self.model.quarantined.push(*id);
@@ -679,7 +714,11 @@ impl<'a> Exec<'a> {
         let du = self.s().disk_used().await;
         let mut blobs = 0u64;
         let mut idx = 0u64;
-        for (_, is_idx, p) in sut::list_files(&self.dir) {
+        for (id, is_idx, p) in sut::list_files(&self.dir) {
+            if self.model.ignored.contains(&id) {
+                // a corrupted blob left in place (ignore_corrupted) is not part of the storage
+                continue;
+            }
             let len = p.metadata().map(|m| m.len()).unwrap_or(0);
             if is_idx {
                 idx += len;
@@ -763,6 +802,32 @@ pub fn scratch_root() -> PathBuf {
 
 /// Applies the model side of an op only (no storage involved). Covers the ops used in suffixes of the
 /// cancellation check; returns false for ops it does not handle.
+/// Runs the query an `Op::Probe` stands for and drops the answer
+pub async fn run_probe(s: &dyn Sut, kb: &[u8], kind: u8) {
+    match kind {
+        0 => {
+            let _ = s.read(kb).await;
+        }
+        1 => {
+            let _ = s.read_all(kb, true, LoadMode::Full).await;
+        }
+        2 => {
+            let _ = s.contains(kb).await;
+        }
+        3 => {
+            if let Some(m) = meta_pool(1) {
+                let _ = s.read_with(kb, &to_meta(&m)).await;
+            }
+        }
+        _ => {
+            let _ = s.check_filters(kb).await;
+        }
+    }
+}
+
+/// Signature of the open finding "index file of the right length with an intact header but altered later bytes is accepted"
+pub const INDEX_CONTENT_ALTERED: &str = "restart/index-content-altered-at-same-length";
+
 pub fn model_apply(model: &mut Model, keylen: usize, idx: usize, op: &Op) -> bool {
     match op {
         Op::Write { key, ts, meta, vlen, fill } => {
@@ -790,6 +855,10 @@ pub fn model_apply(model: &mut Model, keylen: usize, idx: usize, op: &Op) -> boo
         Op::Switch => {
             model.close_active();
             model.create_active();
+            true
+        }
+        Op::Abandon { lazy } => {
+            model.restart(*lazy);
             true
         }
         Op::Reopen { lazy, .. } => {
